@@ -108,11 +108,12 @@ def check_accessor(F, R, fn, adt, nbytes, expected_bits_fn, key, what, slice_=Fa
     # compare on the width of the spec field; higher result bits must be 0
     ok = True
     msg = None
-    for i in range(len(got)):
+    for i in range(max(len(got), len(want))):
         w = want[i] if i < len(want) else 0
-        if got[i] != w:
+        g = got[i] if i < len(got) else 0     # a result narrower than the field drops the field's upper bits
+        if g != w:
             ok = False
-            msg = "bit %d of %s is %s, spec (%s) says %s" % (i, fn.npath.split("::")[-1], I.vars.name_of_mask(got[i]), what, I.vars.name_of_mask(w))
+            msg = "bit %d of %s is %s, spec (%s) says %s%s" % (i, fn.npath.split("::")[-1], I.vars.name_of_mask(g), what, I.vars.name_of_mask(w), " (the accessor's result type is narrower than the field)" if i >= len(got) else "")
             break
     bad_obl = [k for k, v in I.obl.items.items() if v["bad"]]
     if bad_obl:
